@@ -53,7 +53,7 @@ def entry_at(s, p):
 
 def holds(s, p, e):
     """Does node s store entry e at position p (in its log, or under its snapshot)?"""
-    if not s.alive or len(s.extra) > 1:
+    if not s.alive or len(s.extra) > 2:
         dl = dict(s.extra).get('durable')
         if dl is None:
             if not s.alive:
